@@ -67,6 +67,9 @@ type schedRun struct {
 var curRun atomic.Pointer[schedRun]
 
 func schedGate(name string, kv ...any) {
+	if hooksOff.Load() {
+		return
+	}
 	r := curRun.Load()
 	if r == nil || r.free.Load() {
 		return
@@ -91,6 +94,9 @@ func schedGate(name string, kv ...any) {
 }
 
 func schedTrace(ev string, kv ...any) {
+	if hooksOff.Load() {
+		return
+	}
 	r := curRun.Load()
 	if r == nil {
 		return
@@ -235,6 +241,11 @@ func replaySched(un *universe, c *schedCase, form string, enc *json.Encoder) (in
 		state[a.p] = a
 	}
 	want := newTable()
+	var allIDs []string
+	for _, part := range c.Parts {
+		allIDs = append(allIDs, part...)
+	}
+	sc := un.scopeOf(allIDs)
 	nres := make([]int, np+1)
 	steps := 0
 	for i := range c.Steps {
@@ -307,7 +318,7 @@ func replaySched(un *universe, c *schedCase, form string, enc *json.Encoder) (in
 			tag, _ := x[1].(float64)
 			want.Exts[extStr(dotted(e), int(tag))] = st.F
 		}
-		if d := un.project(s).diff(want); d != "" {
+		if d := un.projectIn(s, sc).diff(want); d != "" {
 			report("table-mismatch:"+st.A, i, d)
 			break
 		}
